@@ -36,7 +36,7 @@ func execConc(args []string) string {
 			l := sc.Text()
 			switch {
 			case strings.HasPrefix(l, "bestmove "):
-				if f := strings.Fields(l); len(f) != 2 {
+				if f := strings.Fields(l); !bestmoveLine(l) {
 					atomic.AddInt64(&interleaved, 1)
 				} else if set, _ := curLegal.Load().(map[string]bool); set != nil && !set[f[1]] {
 					atomic.AddInt64(&illegal, 1)
@@ -214,6 +214,11 @@ func concOps(o *Out, seed uint64, n int) {
 }
 
 var infoLineRe = regexp.MustCompile(`^info depth \d+ score cp -?\d+ time \d+ nodes \d+ nps -?\d+ hashfull \d+ pv( [a-h][1-8][a-h][1-8][nbrq]?)* ?$`)
+
+var bestmoveRe = regexp.MustCompile(`^bestmove [a-h][1-8][a-h][1-8][nbrq]?( ponder [a-h][1-8][a-h][1-8][nbrq]?)? ?$`)
+
+// bestmoveLine: one whole `bestmove <move> [ponder <move>]` line (the ponder suffix is optional in UCI)
+func bestmoveLine(l string) bool { return bestmoveRe.MatchString(l) }
 
 // wholeLine: is l one complete output line of the engine (nothing glued to it)?
 func wholeLine(l string) bool {
